@@ -893,6 +893,67 @@ def c15_tables(count, seed):
     return tables
 
 
+def _far_enough(lines, xyz, floor=1000):
+    return all((ln["x"] - xyz[0]) ** 2 + (ln["y"] - xyz[1]) ** 2 + (ln["z"] - xyz[2]) ** 2 >= floor ** 2 for ln in lines)
+
+
+def c15_dup_tables(count, seed):
+    """Backbones in which residues carry a stray second record of P, of O3' or of the base atoms (no
+    alternate-location flag, same occupancy), before or after the regular record; the stray P / O3' sits
+    where the connectivity answer differs from the regular one's."""
+    rng = random.Random(seed * 7919 + 11)
+    kinds = [k for k in LINKS if not k.startswith("sphere") and not k.startswith("no")]
+    tables = []
+    k = 0
+    while len(tables) < count:
+        k += 1
+        nlinks = rng.choice([2, 3, 4])
+        links = [kinds[(k + j * 2) % len(kinds)] for j in range(nlinks)]
+        lines = build_backbone(rng, links, chains=1, hetero_tail=False)
+        blocks = residue_blocks(lines)
+        r = rng.randrange(1, len(blocks))              # residue r owns the stray records (it has a predecessor)
+        which = ("P", "base", "O3'", "P+base")[k % 4]
+        first = k % 8 < 4                              # the stray record comes first / last in the residue
+        if which == "O3'":
+            r = rng.randrange(0, len(blocks) - 1)
+        own = blocks[r][1]
+        stray = []
+        def copy_of(an, xyz):
+            src = next(ln for ln in own if ln["an"] == an)
+            return dict(src, x=xyz[0], y=xyz[1], z=xyz[2])
+        if "P" in which:
+            prev_o3 = next(ln for ln in blocks[r - 1][1] if ln["an"] == "O3'")
+            p = next(ln for ln in own if ln["an"] == "P")
+            bonded = (p["x"] - prev_o3["x"]) ** 2 + (p["y"] - prev_o3["y"]) ** 2 + (p["z"] - prev_o3["z"]) ** 2 < 2400 ** 2
+            off = (300, -2900, 1400) if bonded else (0, 1100, 1150)      # |.| = 3.23 A broken / 1.59 A bonded
+            stray.append(copy_of("P", (prev_o3["x"] + off[0], prev_o3["y"] + off[1], prev_o3["z"] + off[2])))
+        if which == "O3'":
+            nxt_p = next(ln for ln in blocks[r + 1][1] if ln["an"] == "P")
+            o3 = next(ln for ln in own if ln["an"] == "O3'")
+            bonded = (o3["x"] - nxt_p["x"]) ** 2 + (o3["y"] - nxt_p["y"]) ** 2 + (o3["z"] - nxt_p["z"]) ** 2 < 2400 ** 2
+            off = (-300, 2900, -1400) if bonded else (0, -1100, -1150)
+            stray.append(copy_of("O3'", (nxt_p["x"] + off[0], nxt_p["y"] + off[1], nxt_p["z"] + off[2])))
+        if "base" in which:
+            for an in ("N9", "N1", "C4", "C2"):
+                src = [ln for ln in own if ln["an"] == an]
+                if src:
+                    stray.append(copy_of(an, (src[0]["x"] + 1700, src[0]["y"] - 1900, src[0]["z"] + (2100 if an[0] == "C" else -1300))))
+        ok = all(_far_enough([ln for ln in lines if ln is not s0] + [t for t in stray if t is not s0], (s0["x"], s0["y"], s0["z"]))
+                 for s0 in stray)
+        # ... and no stray O3'/P exactly 2.4 A from a P/O3' of a neighbour
+        if not ok:
+            continue
+        out = []
+        for b, (_, ls) in enumerate(blocks):
+            if b == r:
+                out += (stray + ls) if first else (ls + stray)
+            else:
+                out += ls
+        tables.append({"tid": f"dup{seed}-{k}-{which}-{'first' if first else 'last'}", "links": links, "icn": "?", "ocn": "?",
+                       "lines": [dict(ln) for ln in out]})
+    return tables
+
+
 CORPUS_C15 = ["1ehz-assembly-1.cif", "1E7K_1_C.cif", "184D.cif", "1JJP.cif", "1ATO.pdb", "1DFU_1_M-N.cif", "6INQ.cif",
               "1HMH_1_E.cif", "4WTI_1_T-P.cif"]
 
